@@ -51,8 +51,7 @@ CLAIMED["C01"] = dict(
   ref="DESIGN.md section 5 (C01)", engine="tlc-solve")
 
 
-PLANNED = ["C01", "C02", "C03", "C04", "C09", "C10", "C11", "C12", "C13",
-           "C15", "C17", "C18", "C20"]
+PLANNED = []
 NA_FIXED = {
  "C06": "grid-independent convergence factor: a measured real-valued "
         "contraction rate against thresholds; no discrete state or "
@@ -306,7 +305,33 @@ CLAIMED["C10"] = dict(
        "inside the grid; rational recognition at 1e-13.",
   ref="DESIGN.md section 5 (C10)", engine="tlc-dipoleops")
 
+CLAIMED["C03"] = dict(
+  category="exploration",
+  technique="TLA+ model of the smoothers' discrete structure (Smoother.tla: "
+            "kernel dispatch, blocks, sweep order, last block, band layout) "
+            "checked exhaustively by TLC + TLC validation of floating-point "
+            "observations of the real smoothing() made with an operator "
+            "assembled independently of emg3d.core",
+  text="TLC checks for all shapes 2..5^3, line-relaxation codes 0..7 and "
+       "nu 1..4 that the block relaxed last is well-defined and interior, "
+       "that line kernels never run along two-cell directions, and the "
+       "injectivity / band confinement of the line-system layout.  For 160 "
+       "(thorough 512) calls of the real smoothing on random stretched, "
+       "triaxial, mu_r, real/complex systems the harness observes with the "
+       "C02-validated operator: residual vanishes on the edges TLC derives "
+       "as the last block, boundary values untouched (bit-wise), exact "
+       "solutions are fixed points, affinity, compiled = Python source; "
+       "blocks_to_amat is fed tagged blocks and checked against the layout, "
+       "core.solve against dense algebra.  The numerical content is the "
+       "harness's (tolerances 1e-10..1e-12), the structure the "
+       "specification's - hence the weaker level.",
+  note="Trusted: TLC, harness/fit.py (validated under C02), tolerances.",
+  ref="DESIGN.md section 5 (C03)", engine="tlc-smoother")
+
 ENGINES = [
+ dict(name="tlc-smoother", path="spec/Smoother.tla", serves_properties=["C03"],
+      kind_free_text="TLA+ structure model + TLC validation of numeric "
+                     "observations"),
  dict(name="tlc-dipoleops", path="spec/DipoleOps.tla",
       serves_properties=["C10"],
       kind_free_text="TLA+ exact-arithmetic reference + TLC validation of "
